@@ -263,14 +263,24 @@ def gen_cases(tier, rng, pub, fam_rows, pfr_rows):
         fam_by_type.setdefault(regen_c03.ROT_IDS[r["rot_type"]], []).append(r["family"])
 
     # ---- S1: Rot classes: key sets x orders x encodings
+    # (encoding sets are chosen so that many of them reach the model as the same (key, supply) list: the model is then
+    #  evaluated once for all of them, while the implementation and the oracles see every encoding)
     rot = []
     groups = [rsa[2048], rsa[3072], rsa[4096], ecc[256], ecc[384], ecc[521]]
     accepted = {1: groups[:3], 21: groups[3:5], 3: groups, 4: groups[3:], 5: groups, 6: []}
+    deep = groups if thorough else [rsa[2048], ecc[256], ecc[384], ecc[521]]      # key classes explored in depth in this tier
+
+    def alt(n, other):
+        return ["raw" if j % 2 == 0 else rng.choice(other) for j in range(n)]
+
     for rt in (1, 21, 3, 4, 5, 6):
         fams = fam_by_type.get(rt, [ROT_FAMILY[rt]])
         for g in groups:
             full = g in accepted[rt]
-            sizes = (1, 2, 3, 4) if full and rt not in (3, 4) else ((4, 2) if full else (4,))
+            if full and g in deep:
+                sizes = (4, 2) if rt in (3, 4) else (1, 2, 3, 4)
+            else:
+                sizes = (4, 1) if full and rt not in (3, 4) else (4,)
             for n in sizes:
                 for _ in range(2 if thorough and full else 1):
                     ks = pick_set(g, n)
@@ -279,24 +289,26 @@ def gen_cases(tier, rng, pub, fam_rows, pfr_rows):
                         z = rng.choice(zs)
                         if z not in ks:
                             ks[rng.randrange(n)] = z
-                    orders = [ks] + ([list(reversed(ks))] if n > 1 and full else [])
+                    orders = [ks] + ([list(reversed(ks))] if n > 1 and full and g in deep else [])
                     if thorough and n > 2 and full:
                         orders.append(rng.sample(ks, n))
                     for oi, o in enumerate(orders):
                         fam = rng.choice(fams) if thorough else fams[0]
                         if rt == 5:
-                            encsets = [["cert_der"] * n, ["cert_ca_pem"] * n, enc_mix(n, CERT_ENCS + CERT_CA_ENCS)]
+                            encsets = [["cert_der"] * n, ["cert_ca_pem"] * n, enc_mix(n, CERT_ENCS), enc_mix(n, CERT_CA_ENCS)]
                             if oi == 0:
-                                encsets += [["cert_pem"] * n, ["file:cert_ca_der"] * n, ["pub_pem"] * n]
+                                encsets += [["pub_pem"] * n] + ([alt(n, CERT_CA_ENCS)] if n > 1 else [])
                             if n == 4 and oi == 0:
-                                encsets += [["obj_cert_ca"] * n, ["raw"] * n, ["obj_cert"] * n]
+                                encsets += [["raw"] * n, ["obj_cert"] * n]
                         elif not full or (rt in (3, 4) and n != 4):
-                            encsets = [["pub_pem"] * n, enc_mix(n, PLAIN_ENCS + ["raw"])]
+                            encsets = [["pub_pem"] * n, enc_mix(n, PLAIN_ENCS)]
                         else:
-                            encsets = [["pub_pem"] * n, ["raw"] * n, ["cert_ca_der"] * n, enc_mix(n, PLAIN_ENCS + ["raw"])]
+                            encsets = [["pub_pem"] * n, ["raw"] * n, ["cert_ca_der"] * n, enc_mix(n, PLAIN_ENCS), enc_mix(n, CA_BYTES_ENCS)]
                             if oi == 0:
-                                encsets += [[e] * n for e in rng.sample(PLAIN_ENCS, 5 if thorough else 2)]
-                                encsets += [enc_mix(n, PLAIN_ENCS + ["raw"]), enc_mix(n, CA_BYTES_ENCS)]
+                                encsets += [[e] * n for e in rng.sample(PLAIN_ENCS, 6 if thorough else 3)]
+                                encsets += [enc_mix(n, PLAIN_ENCS) for _ in range(3 if thorough else 1)]
+                                if rt in (1, 21) and n > 1:
+                                    encsets += [alt(n, PLAIN_ENCS)]
                                 if n in (1, 4):
                                     encsets += [["obj_cert_ca"] + ["pub_pem"] * (n - 1)]
                         if rt == 6:
@@ -321,11 +333,14 @@ def gen_cases(tier, rng, pub, fam_rows, pfr_rows):
     cli = []
     for rt in (1, 21, 3, 4, 5, 6):
         for g in groups:
+            if g not in accepted[rt] and rng.random() < (0.3 if thorough else 0.7):
+                continue
             for n in ((4,) if rt in (3, 4) else (1, 3, 4)):
-                if not thorough and rng.random() < 0.5 and n != 4:
+                if not thorough and n != 4 and (g not in deep or rng.random() < 0.5):
                     continue
                 ks = pick_set(g, n)
-                for es in ([enc_mix(n, ["cert_der", "cert_pem"])] if rt == 5 else [enc_mix(n, FILE_ENCS), ["raw"] * n]):
+                plain_files = [e for e in FILE_ENCS if e != "raw"]
+                for es in ([enc_mix(n, ["cert_der", "cert_pem"])] if rt == 5 else [enc_mix(n, plain_files), ["raw"] * n]):
                     cli.append({"op": "cli", "rt": rt, "family": ROT_FAMILY[rt], "keys": [[k, e] for k, e in zip(ks, es)]})
     streams["nxpcrypto rot calculate-hash (click CliRunner, keys as files)"] = cli
     # ---- S3: RKHT classes and per-key functions
@@ -343,7 +358,7 @@ def gen_cases(tier, rng, pub, fam_rows, pfr_rows):
     # ---- S4: certificate block v1
     cb1 = []
     for g in (rsa[2048], rsa[3072], rsa[4096], ecc[256], ecc[384]):
-        for n in (1, 2, 3, 4):
+        for n in ((1, 2, 3, 4) if g in deep else (4,)):
             ks = pick_set(g, n)
             for used in range(n):
                 if not thorough and n > 2 and used not in (0, n - 1):
@@ -399,16 +414,18 @@ def gen_cases(tier, rng, pub, fam_rows, pfr_rows):
     cb21.append({"op": "cb21", "keys": [[k, "raw"] for k in ecc[256][:4] + ecc[256][:1]], "used": 0, "ca_flag": True})
     cb21.append({"op": "cb21", "keys": [[ecc[256][0], "obj_cert_ca"]], "used": 0, "ca_flag": True})
     streams["CertBlockV21: calculate / rkth / flags / export / ISK signature / parse / re-export"] = cb21
-    # ---- S6: PFR CMPA.export(keys=...)
+    # ---- S6: PFR CMPA.export(keys=...): the same key sets for every family of one (RKHT class, register width) pair
     pfr = []
+    pfr_sets = {}
     for r in pfr_rows:
         if not r["width"]:
             continue
-        gs = [rsa[2048], rsa[4096], ecc[256], ecc[384], ecc[521]]
-        for g in (gs if thorough else rng.sample(gs, 3) + [ecc[384 if r["width"] == 384 else 256]]):
-            n = rng.choice([1, 2, 3, 4])
-            pfr.append({"op": "pfr", "family": r["family"], "width": r["width"], "ver": {"RKHTv1": 1, "RKHTv21": 21}[r["rkht"]],
-                        "keys": pick_set(g, n)})
+        cls = (r["rkht"], r["width"])
+        if cls not in pfr_sets:
+            gs = [rsa[2048], rsa[4096], ecc[256], ecc[384], ecc[521]] if thorough else [rsa[2048], ecc[256], ecc[384], ecc[521]]
+            pfr_sets[cls] = [pick_set(g, n) for g in gs for n in ((1, 2, 3, 4) if thorough else (rng.choice([1, 2, 3]), 4))]
+        for ks in pfr_sets[cls]:
+            pfr.append({"op": "pfr", "family": r["family"], "width": r["width"], "ver": {"RKHTv1": 1, "RKHTv21": 21}[r["rkht"]], "keys": ks})
     streams["PFR: CMPA.export(keys=...) ROTKH field for every family with a ROTKH register"] = pfr
     # ---- S7: debug credential RoT meta
     dc = []
@@ -438,7 +455,7 @@ def gen_cases(tier, rng, pub, fam_rows, pfr_rows):
 def malformed_cases(rng, exports21, exports1, thorough):
     """Second phase: damaged certificate blocks (headers, flag words, truncation) for parse."""
     out = []
-    for data in exports21[: (60 if thorough else 12)]:
+    for data in exports21[: (60 if thorough else 8)]:
         b = bytearray(data)
         muts = [bytes(b[:k]) for k in (0, 3, 11, 12, 15, 16, len(b) // 2, len(b) - 1)]
         for off in (0, 4, 6, 8, 12, 13, 15):        # magic, version, size, root key record flags
@@ -448,9 +465,9 @@ def malformed_cases(rng, exports21, exports1, thorough):
                     m[off] = val
                     muts.append(bytes(m))
         muts.append(bytes(b) + b"\0" * 7)
-        for m in (muts if thorough else rng.sample(muts, 14)):
+        for m in (muts if thorough else rng.sample(muts, 10)):
             out.append({"op": "parse21", "data": m.hex()})
-    for data in exports1[: (30 if thorough else 6)]:
+    for data in exports1[: (30 if thorough else 4)]:
         b = bytearray(data)
         muts = [bytes(b[:k]) for k in (0, 31, len(b) - 1)]     # (certificate bytes are X.509, opaque to the model: left intact)
         for off in (0, 4, 6, 8, 12, 16, 20, 28):
@@ -458,7 +475,7 @@ def malformed_cases(rng, exports21, exports1, thorough):
                 m = bytearray(b)
                 m[off] = val
                 muts.append(bytes(m))
-        for m in (muts if thorough else rng.sample(muts, 10)):
+        for m in (muts if thorough else rng.sample(muts, 8)):
             out.append({"op": "parse1", "data": m.hex()})
     return out
 
@@ -882,7 +899,7 @@ def oracle_cb21(c, r, pub):
 def run(tier):
     rep = vlib.Report(PID, tier)
     rng = vlib.Rng(vlib.seed())
-    shutil.rmtree(WORK, ignore_errors=True)
+    shutil.rmtree(os.path.join(WORK, "files"), ignore_errors=True)      # (proposed_fix_*.diff in WORK are kept)
     os.makedirs(WORK, exist_ok=True)
     extracted = None
     try:
@@ -891,7 +908,7 @@ def run(tier):
     except Exception as ex:  # noqa
         rep.obligation("translate:rot/cert-block/AHAB/HAB constants + database rot types->Gen/GenRot.v", False, repr(ex))
     model_ok, mout = vlib.coq_make(["Model/RotModel.vo"])
-    vlib.check_theorems(rep, PID, THEOREMS, ["Proofs/RotProofs.vo"])
+    vlib.check_theorems(rep, PID, THEOREMS, ["Proofs/RotProofs.vo", "Proofs/RotBlockProofs.vo"])
     if tier == "thorough":
         vlib.coqchk(rep, PID, THEOREMS)
     vlib.audit(rep)
@@ -1015,7 +1032,7 @@ def run(tier):
                        samples=[{k: (v if not isinstance(v, str) or len(v) < 80 else v[:60] + "...") for k, v in flat[i].items()} for i in ids[:3]],
                        exhaustive=False, extra={"rejected_or_error": len(ids) - len(okc)})
     encs_seen = sorted({e for c in flat for _, e in (c.get("keys") if c["op"] in ("rot", "cli", "rkht", "cb21", "dc", "hab") else []) or []})
-    shutil.rmtree(WORK, ignore_errors=True)
+    shutil.rmtree(os.path.join(WORK, "files"), ignore_errors=True)
     return rep.finish(
         rule="cases are drawn from VERIF_SEED: RSA keys from a fixed pool of test keys (2048/3072/4096, e=65537, one e=3), ECC keys fresh per seed "
              "with a search for leading-zero coordinates; key sets of 1..4 keys x orders x used index x input encodings through every tool path; "
@@ -1024,7 +1041,7 @@ def run(tier):
                       "hand model Model/RotModel.v tied by correspondence", "Crypto/Sha2.v (SHA-256/384/512 from FIPS 180-4, validated on the NIST vectors)",
                       "cryptography/OpenSSL: PEM, DER, X.509 decoding and ECDSA/RSA key objects (black box)",
                       "pure-Python NIST curve arithmetic and hashlib in the check (oracles)"],
-        checker_cmd="coqc -R . V Props/C03/*.v (after make Proofs/RotProofs.vo)",
+        checker_cmd="coqc -R . V Props/C03/*.v (after make Proofs/RotProofs.vo Proofs/RotBlockProofs.vo)",
         assumptions=["PEM/DER/X.509 decoding returns the public numbers of the encoded key (cryptography's parsers)",
                      "NXP raw key bytes are not themselves a valid PEM/DER object",
                      "certificates inside CertBlockV1 are opaque byte strings that form a valid chain (X.509 validation is cryptography's)",
